@@ -125,7 +125,9 @@ def step_lean(prop, cfg, tier, log):
         log.append("lake build failed:\n" + out[-4000:])
         return False, 0, 0, "lake build failed: " + " | ".join(errs), errs
     # axiom audit
-    audit_src = "".join("import %s\n" % m for m in mods) + "import ZenoModel.AuditTool\n#audit_namespace Zeno.%s\n" % prop
+    # further namespaces whose theorems count for this property (shared results such as Zeno.StoreProj)
+    spaces = ["Zeno.%s" % prop] + ["Zeno.%s" % n for n in cfg.get("extra_namespaces", [])]
+    audit_src = "".join("import %s\n" % m for m in mods) + "import ZenoModel.AuditTool\n" + "".join("#audit_namespace %s\n" % n for n in spaces)
     os.makedirs(OUT, exist_ok=True)
     apath = os.path.join(OUT, "audit_%s.lean" % prop)
     open(apath, "w").write(audit_src)
@@ -147,7 +149,8 @@ def step_lean(prop, cfg, tier, log):
         detail += "forbidden constructs in Lean sources: %s; " % forb[:5]
     required = cfg.get("theorems", [])
     names = {t["thm"] for t in thms}
-    missing = [r for r in required if "Zeno.%s.%s" % (prop, r) not in names]
+    # a required name is looked up in the property's own namespace, or, written `Space.name`, in an extra one
+    missing = [r for r in required if ("Zeno.%s" % r if "." in r else "Zeno.%s.%s" % (prop, r)) not in names]
     if missing:
         detail += "required theorems missing: %s; " % missing
     ok = not bad and not forb and not missing
@@ -377,8 +380,7 @@ def main():
             known_seen[k] = known_seen.get(k, 0) + v
     rc = 0
     for kf in known.get("known", []):
-        kprops = kf.get("property")
-        kprops = kprops if isinstance(kprops, list) else [kprops]
+        kprops = kf.get("properties") or [kf.get("property")]
         if prop in kprops and known_seen.get(kf["id"], 0) > 0:
             print("KNOWN-FINDING: property=%s %s" % (prop, kf["what"]))
 
